@@ -31,11 +31,14 @@ type ApplyOverride struct {
 	Refetch     []int  `json:"refetch"` // relative to the index of the call (0 = self)
 	RejectSelf  bool   `json:"reject_self"`
 	RejectPeers []int  `json:"reject_peers"`
+	// RejectAdvertisers: RejectSenders = every peer that ever advertised the snapshot being restored
+	RejectAdvertisers bool `json:"reject_advertisers,omitempty"`
 }
 
 type AppSpec struct {
 	Version     uint64                `json:"version"`
 	OfferScript map[int]string        `json:"offer_script"` // offer call number -> verdict
+	OfferBySnap map[int]string        `json:"offer_by_snap,omitempty"` // catalog index -> verdict whenever that snapshot is offered (OfferScript wins)
 	AcceptAny   bool                  `json:"accept_any_offer"`
 	ApplyScript map[int]ApplyOverride `json:"apply_script"` // apply call number -> override
 	SmartReject bool                  `json:"smart_reject_sender"`
@@ -48,7 +51,7 @@ type AppSpec struct {
 // call returned (racing with the syncer on purpose).
 type Action struct {
 	At      string `json:"at"`    // apphash | offer | apply | after-apply
-	Call    int    `json:"call"`  // call number of that kind
+	Call    int    `json:"call"`  // call number of that kind; -1 = every call of that kind except the first
 	Kind    string `json:"kind"`  // push | push-async (hold does not wait for the delivery) | stop | readv | flush | reconnect (leave if still connected, come back under the same node key, advertise Snap)
 	Peer    int    `json:"peer"`  // liar index; -1 = sender of the chunk of this call, -2 = sender most recently rejected by the app, -3 = some other honest connected peer
 	Rel     int    `json:"rel"`   // push: index = current index + rel (mod chunks)
@@ -108,7 +111,7 @@ func has(ss []string, s string) bool {
 	return false
 }
 
-var recipeNames = []string{"plain", "s18", "dup", "blacklist", "infolie", "retrysnap", "vanish", "spfault", "many", "noise", "fooled", "comeback"}
+var recipeNames = []string{"plain", "s18", "dup", "blacklist", "infolie", "retrysnap", "vanish", "spfault", "many", "noise", "fooled", "comeback", "orphan"}
 
 // genScenario draws scenario number idx.
 func genScenario(r *rand.Rand, verifSeed, sub int64, stream string, idx int) *Scenario {
@@ -123,6 +126,9 @@ func genScenario(r *rand.Rand, verifSeed, sub int64, stream string, idx int) *Sc
 	}
 	// recipes: the first few cases walk through the list so that every tier sees each one
 	nrec := 1 + r.Intn(3)
+	if recipeNames[idx%len(recipeNames)] == "orphan" {
+		nrec = 1 // a fixed cast of peers: kept free of other recipes when it is the primary one
+	}
 	s.Recipes = append(s.Recipes, recipeNames[idx%len(recipeNames)])
 	for len(s.Recipes) < nrec {
 		x := recipeNames[r.Intn(len(recipeNames))]
@@ -361,6 +367,54 @@ func genScenario(r *rand.Rand, verifSeed, sub int64, stream string, idx int) *Sc
 				adv = third
 			}
 			s.Actions = append(s.Actions, Action{At: "apphash", Call: 1, Kind: "reconnect", Peer: 0, Snap: adv})
+		}
+	}
+	if rc("orphan") {
+		// a snapshot / format / sender is rejected by the app at a moment when the pool no longer holds
+		// the snapshot (its last advertiser has just been rejected or has left); afterwards the same
+		// snapshot is advertised again while a lesser snapshot is tried and refused
+		variant := r.Intn(5)
+		if s.Recipes[0] == "orphan" {
+			variant = (idx / len(recipeNames)) % 5
+		}
+		secondFormat := uint32(2) // never the format of the main snapshot, so that a rejected format does not end the sync
+		secondSnap := addTrue(3+uint64(r.Intn(int(s1)-3)), secondFormat, uint32(1+r.Intn(3)))
+		nadv := 1
+		if variant == 0 || variant == 4 {
+			nadv = 1 + r.Intn(2)
+		}
+		s.Peers = nil
+		for p := 0; p < nadv; p++ {
+			s.Peers = append(s.Peers, PeerSpec{Default: "honest", Adverts: [][]int{{main}}})
+		}
+		fresh := len(s.Peers)
+		s.Peers = append(s.Peers, PeerSpec{Default: "honest", Adverts: [][]int{{}}})         // has advertised nothing so far
+		s.Peers = append(s.Peers, PeerSpec{Default: "honest", Adverts: [][]int{{secondSnap}}}) // only has the lesser snapshot
+		np = len(s.Peers)
+		if s.App.OfferBySnap == nil {
+			s.App.OfferBySnap = map[int]string{}
+		}
+		s.App.OfferBySnap[secondSnap] = "REJECT"
+		switch variant {
+		case 0, 4: // ApplySnapshotChunk: RejectSenders = all advertisers and REJECT_SNAPSHOT in one response
+			k := r.Intn(int(n1))
+			s.App.ApplyScript[k] = ApplyOverride{Result: "REJECT_SNAPSHOT", RejectAdvertisers: true}
+			s.Actions = append(s.Actions, Action{At: "apphash", Call: -1, Kind: "readv", Peer: fresh, Snap: main})
+			if variant == 4 {
+				// ... and one of the rejected senders comes back and advertises it as well
+				s.Actions = append(s.Actions, Action{At: "apphash", Call: -1, Kind: "reconnect", Peer: 0, Snap: main})
+			}
+		case 1, 2, 3: // the only advertiser leaves while OfferSnapshot is in flight; the app refuses
+			s.App.OfferScript[0] = []string{"", "REJECT", "REJECT_FORMAT", "REJECT_SENDER"}[variant]
+			s.Actions = append(s.Actions, Action{At: "offer", Call: 0, Kind: "stop", Peer: 0})
+			s.Actions = append(s.Actions, Action{At: "apphash", Call: -1, Kind: "reconnect", Peer: 0, Snap: main})
+			if variant == 2 {
+				// another snapshot of the rejected format, from a peer that was never involved
+				other := addTrue(s1-1, 1, uint32(1+r.Intn(2)))
+				s.Actions = append(s.Actions, Action{At: "apphash", Call: -1, Kind: "readv", Peer: fresh, Snap: other})
+			} else if r.Intn(2) == 0 {
+				s.Actions = append(s.Actions, Action{At: "apphash", Call: -1, Kind: "readv", Peer: fresh, Snap: main})
+			}
 		}
 	}
 	if rc("spfault") {
